@@ -159,6 +159,52 @@ class ExtractTemp(ast.NodeTransformer):
         return out
 
 
+class WhileTrueBreak(ast.NodeTransformer):
+    """while c: B  ->  while True: if not c: break; B     (loops without an else clause)"""
+
+    def visit_While(self, node):
+        self.generic_visit(node)
+        if node.orelse or (isinstance(node.test, ast.Constant) and node.test.value is True):
+            return node
+        guard = ast.If(test=ast.UnaryOp(op=ast.Not(), operand=node.test), body=[ast.Break()], orelse=[])
+        return ast.copy_location(ast.While(test=ast.Constant(value=True), body=[guard] + node.body, orelse=[]), node)
+
+
+class CompToLoop(ast.NodeTransformer):
+    """x = [E for v in it]  ->  x = []; for v in it: x.append(E)     (single unfiltered generator, plain name target)"""
+
+    def __init__(self):
+        self.n = 0
+
+    def _rewrite(self, stmts):
+        out = []
+        for st in stmts:
+            for fld in ("body", "orelse", "finalbody"):
+                if hasattr(st, fld) and isinstance(getattr(st, fld), list) and not isinstance(st, (ast.FunctionDef, ast.ClassDef)):
+                    setattr(st, fld, self._rewrite(getattr(st, fld)))
+            if isinstance(st, ast.Try):
+                for h in st.handlers:
+                    h.body = self._rewrite(h.body)
+            if isinstance(st, ast.Assign) and len(st.targets) == 1 and isinstance(st.targets[0], ast.Name) \
+                    and isinstance(st.value, ast.ListComp) and len(st.value.generators) == 1 and not st.value.generators[0].ifs \
+                    and not st.value.generators[0].is_async \
+                    and st.targets[0].id not in {n.id for n in ast.walk(st.value) if isinstance(n, ast.Name)}:
+                name = st.targets[0].id
+                g = st.value.generators[0]
+                out.append(ast.copy_location(ast.Assign(targets=[ast.Name(id=name, ctx=ast.Store())], value=ast.List(elts=[], ctx=ast.Load())), st))
+                app = ast.Expr(value=ast.Call(func=ast.Attribute(value=ast.Name(id=name, ctx=ast.Load()), attr="append", ctx=ast.Load()),
+                                              args=[st.value.elt], keywords=[]))
+                out.append(ast.copy_location(ast.For(target=g.target, iter=g.iter, body=[app], orelse=[]), st))
+            else:
+                out.append(st)
+        return out
+
+    def visit_FunctionDef(self, node):
+        self.generic_visit(node)
+        node.body = self._rewrite(node.body)
+        return node
+
+
 TRANSFORMS: Dict[str, Callable[[], ast.NodeTransformer]] = {
     "rename-locals": RenameLocals,
     "insert-pass": InsertNoise,
@@ -166,6 +212,8 @@ TRANSFORMS: Dict[str, Callable[[], ast.NodeTransformer]] = {
     "flip-compare": FlipCompare,
     "swap-if-else": SwapIfElse,
     "extract-return-temp": ExtractTemp,
+    "while-true-break": WhileTrueBreak,
+    "comprehension-to-loop": CompToLoop,
 }
 
 
